@@ -52,7 +52,10 @@ type Str struct {
 	Blob any   // abstract content (codec blobs, decimal of a big integer); bytes are then unknown
 }
 
-type icsBlob struct{ data value }  // encoded FungibleTokenPacketData (structure)
+type icsBlob struct {
+	data    value // encoded FungibleTokenPacketData (structure)
+	unknown bool  // carries an unknown field: refused by the strict proto JSON codec, accepted by encoding/json
+}
 type memoBlob struct {
 	wrapper value // *value -> PayloadWrapper structure
 	extra   int   // extra root keys besides "orbiter"
